@@ -150,18 +150,34 @@ func (w *vc10World) creatorOf(c int, id uint64) int {
 	return 0
 }
 
-// one random operation on creatable type c; returns false when it was not applicable
+// one random operation on creatable type c, chosen among the (address, creatable) pairs it applies
+// to; returns false when there is none
 func (w *vc10World) genResOp(r *vRand, c int, rd *vc10Round, touched map[vc10Key]bool) bool {
-	a := 1 + r.Intn(3)
-	pick := func() (uint64, bool) {
-		if len(w.ids[c]) == 0 {
-			return 0, false
-		}
-		return w.ids[c][r.Intn(len(w.ids[c]))], true
+	const (
+		opCreate = iota
+		opOptIn
+		opOptOut
+		opModHold
+		opModPar
+		opDestroy
+	)
+	op := opCreate
+	switch x := r.Intn(100); {
+	case x < 18:
+		op = opCreate
+	case x < 45:
+		op = opOptIn
+	case x < 72:
+		op = opOptOut
+	case x < 80:
+		op = opModHold
+	case x < 86:
+		op = opModPar
+	default:
+		op = opDestroy
 	}
-	op := r.Intn(12)
-	switch {
-	case op < 3: // create
+	if op == opCreate {
+		a := 1 + r.Intn(3)
 		w.nextID += uint64(1 + r.Intn(3))
 		id := w.nextID
 		k := vc10Key{a, id}
@@ -174,82 +190,67 @@ func (w *vc10World) genResOp(r *vRand, c int, rd *vc10Round, touched map[vc10Key
 		touched[k] = true
 		rd.res[c] = append(rd.res[c], w.rec(c, k, false, false))
 		w.st["op_create"]++
-	case op < 6: // opt in
-		id, ok := pick()
-		k := vc10Key{a, id}
-		if !ok || touched[k] || w.creatorOf(c, id) == 0 {
-			return false
+		return true
+	}
+	var cand []vc10Key
+	for _, id := range w.ids[c] {
+		for a := 1; a <= 3; a++ {
+			k := vc10Key{a, id}
+			if touched[k] {
+				continue
+			}
+			_, hasHold := w.hold[c][k]
+			_, hasPar := w.par[c][k]
+			ok := false
+			switch op {
+			case opOptIn:
+				ok = !hasHold && w.creatorOf(c, id) != 0
+			case opOptOut:
+				ok = hasHold && !(c == 0 && hasPar) // an asset creator cannot close out of its own asset
+			case opModHold:
+				ok = hasHold
+			case opModPar, opDestroy:
+				ok = hasPar
+			}
+			if ok {
+				cand = append(cand, k)
+			}
 		}
-		if _, has := w.hold[c][k]; has {
-			return false
-		}
+	}
+	if len(cand) == 0 {
+		return false
+	}
+	k := cand[r.Intn(len(cand))]
+	touched[k] = true
+	switch op {
+	case opOptIn:
 		w.hold[c][k] = w.val()
-		touched[k] = true
 		rd.res[c] = append(rd.res[c], w.rec(c, k, false, false))
 		w.st["op_optin"]++
-	case op < 8: // opt out / close out / clear state
-		id, ok := pick()
-		k := vc10Key{a, id}
-		if !ok || touched[k] {
-			return false
-		}
-		if _, has := w.hold[c][k]; !has {
-			return false
-		}
-		if _, isCreator := w.par[c][k]; isCreator && c == 0 {
-			return false // an asset creator cannot close out of its own asset
-		}
+	case opOptOut:
 		delete(w.hold[c], k)
-		touched[k] = true
 		rd.res[c] = append(rd.res[c], w.rec(c, k, false, true))
 		w.st["op_optout"]++
-	case op < 9: // change the holding / local state
-		id, ok := pick()
-		k := vc10Key{a, id}
-		if !ok || touched[k] {
-			return false
-		}
-		if _, has := w.hold[c][k]; !has {
-			return false
-		}
+	case opModHold:
 		if r.Intn(4) == 0 {
 			w.hold[c][k] = 0
 		} else {
 			w.hold[c][k] = w.val()
 		}
-		touched[k] = true
 		rd.res[c] = append(rd.res[c], w.rec(c, k, false, false))
 		w.st["op_modhold"]++
-	case op < 10: // reconfigure / update
-		id, ok := pick()
-		k := vc10Key{a, id}
-		if !ok || touched[k] {
-			return false
-		}
-		if _, has := w.par[c][k]; !has {
-			return false
-		}
+	case opModPar:
 		w.par[c][k] = w.val()
-		touched[k] = true
 		rd.res[c] = append(rd.res[c], w.rec(c, k, false, false))
 		w.st["op_modpar"]++
-	default: // destroy
-		id, ok := pick()
-		k := vc10Key{a, id}
-		if !ok || touched[k] {
-			return false
-		}
-		if _, has := w.par[c][k]; !has {
-			return false
-		}
+	case opDestroy:
 		delete(w.par[c], k)
 		delHold := false
 		if c == 0 { // the creator's holding goes away with the asset
 			delete(w.hold[c], k)
 			delHold = true
 		}
-		rd.destroyed[id] = a
-		touched[k] = true
+		rd.destroyed[k.aidx] = k.addr
 		rd.res[c] = append(rd.res[c], w.rec(c, k, true, delHold))
 		w.st["op_destroy"]++
 	}
